@@ -409,8 +409,13 @@ def main(argv=None):
         "wall_s": round(wall, 2),
         "violations": len(violations),
     }
-    os.makedirs(os.path.join(VERIF, "evidence"), exist_ok=True)
-    with open(os.path.join(VERIF, "evidence", f"{pid}.json"), "w") as fh:
+    # evidence/ describes runs against /repo itself; a run against another tree (VERIF_REPO: sensitivity runs against
+    # mutated scratch copies) writes its record to the git-ignored out/ directory instead
+    alt = os.environ.get("VERIF_REPO")
+    evdir = os.path.join(VERIF, "evidence") if not alt or os.path.realpath(alt) == os.path.realpath("/repo") \
+        else os.path.join(VERIF, "out", "evidence_other_tree")
+    os.makedirs(evdir, exist_ok=True)
+    with open(os.path.join(evdir, f"{pid}.json"), "w") as fh:
         json.dump(ev, fh, indent=1, default=repr)
         fh.write("\n")
 
